@@ -3,7 +3,7 @@ malformed stream.  Every random choice comes from one random.Random seeded from 
 import json, random
 from core import hx, World
 
-NAMES = ['TestA', 'TestAB', 'TestA/x', 'TestA/x/y', 'TestA/x#01', 'TestB', 'TestB/sub_case', 'Test1', 'Test01',
+NAMES = ['TestA', 'TestAB', 'TestX/[a]', 'TestV2', 'TestA/case_2', 'TestR/ratio/1.25', 'TestA/x', 'TestA/x/y', 'TestA/x#01', 'TestB', 'TestB/sub_case', 'Test1', 'Test01',
          'Test10', 'TestZ/a/b/c', 'TestLong/with_some-chars.and:colon', 'TestÜnicode/ß', 'TestA/x_-_1', 'Test_x']
 PCT_NAMES = ['TestP/100%_done', 'TestQ/%d', 'TestR/50%s']
 UNRECOGNISED = ['FuzzX/seed#0', 'BenchmarkY', 'ExampleZ']
@@ -35,7 +35,7 @@ class Gen:
             return b'ends with cr\r'
         if k < 0.55 and 'long' in allow:
             return b'L' * r.choice([70000, 300000])
-        words = ['foo', 'bar', 'baz', 'hello world', '{', '}', '"a": 1,', 'key: value', '- item', '# comment', 'x' * r.randint(1, 40),
+        words = ['50% done', 'a%20b', '100%', '%s %d %v', 'foo', 'bar', 'baz', 'hello world', '{', '}', '"a": 1,', 'key: value', '- item', '# comment', 'x' * r.randint(1, 40),
                  'int(5)', 'map[string]int{', '    "k": 1,', '}', '\u00e9\u00e8', 'two  spaces']
         return r.choice(words).encode()
 
@@ -43,6 +43,12 @@ class Gen:
         r = self.r
         n = r.choice([0, 1, 1, 1, 2, 2, 3, 4, 6])
         ls = [self.line(ids, allow) for _ in range(n)]
+        if r.random() < 0.05:
+            i = r.randint(0, len(ls))
+            ls[i:i] = [b'---', b'---'] + ([b'---'] if r.random() < 0.3 else [])     # consecutive terminator lines
+        if 'big' in allow and r.random() < 0.25:
+            # many short lines: entries that straddle the scanner's 4 KiB / 64 KiB buffer windows
+            ls += [b'line %04d %s' % (k, b'v' * (k % 23)) for k in range(r.choice([150, 400, 400, 2500]))]
         b = b'\n'.join(ls)
         if r.random() < 0.25:
             b = b'\n' * r.randint(1, 2) + b
@@ -124,6 +130,10 @@ class Gen:
         if r.random() < 0.12:
             docs.append('/-/-/-/')          # a document that is the escape token itself (a plain scalar)
         t = '\n---\n'.join(docs)
+        if r.random() < 0.1:
+            t = '---\n' + t          # explicit document-start marker on the first line
+        if r.random() < 0.1:
+            t = t.replace('hello', '15% of a%20b', 1)
         if r.random() < 0.6:
             t += '\n'
         if r.random() < 0.15:
